@@ -164,6 +164,19 @@ Definition P_out_one (r : orec) : bool :=
   | None => false
   end.
 
+(* "... carries a FRESH random": a random is used for one request only.  Over the requests that
+   ARRIVED at the backends of one server (a request the server sends again - after a failure,
+   a closed connection, a timeout - arrives again and is a request it sent): no two of them carry
+   the same random.  Compared as the header values the backend sees. *)
+Fixpoint fresh_from (seen : list bytes) (l : list orec) : bool :=
+  match l with
+  | [] => true
+  | r :: rest => negb (existsb (String.eqb (r_rnd r)) seen) && fresh_from (r_rnd r :: seen) rest
+  end.
+
+(* the outgoing half of the property on everything a server sent *)
+Definition P_out (l : list orec) : bool := forallb P_out_one l && fresh_from [] l.
+
 (* ====================== running the model on a case ======================== *)
 
 Definition hmac_x (cfg : config) (x : opx) (k m : bytes) : bytes :=
@@ -262,8 +275,9 @@ Definition judge_all (cs : list case) : list (N * N * N) := flat_map judge cs.
 
 (* ---- outgoing requests -------------------------------------------------------
    5 = the headers differ from what the model of AddBackendChecksum sets (given the
-       random bytes the implementation drew), 6 = P_out false, 7 = a random was
-       used twice in this run (statistical freshness test) *)
+       random bytes the implementation drew), 6 = P_out_one false, 7 = the freshness
+       clause of P_out fails: the request carries the random of an earlier request of
+       the same server (third component: the id of that request) *)
 Definition opt_unhex (o : option string) : option bytes :=
   match o with Some h => Some (unhex h) | None => None end.
 Definition mkout (id : N) (cur lookup : option string) (rnd chk body mac lmac : string) : orec :=
@@ -301,9 +315,50 @@ Fixpoint dup_randoms (seen : list bytes) (l : list orec) : list (N * N * N) :=
                  ++ dup_randoms (r_rnd r :: seen) rest
   end.
 
+(* the earlier record that carried this random *)
+Fixpoint dup_of (seen : list orec) (r : orec) : option N :=
+  match seen with
+  | [] => None
+  | p :: rest => match dup_of rest r with
+                 | Some i => Some i          (* seen is newest first: report the earliest *)
+                 | None => if String.eqb (r_rnd p) (r_rnd r) then Some (r_id p) else None
+                 end
+  end.
+Fixpoint dup_records (seen : list orec) (l : list orec) : list (N * N * N) :=
+  match l with
+  | [] => []
+  | r :: rest => opt_code (r_id r) 7%N (dup_of seen r) ++ dup_records (r :: seen) rest
+  end.
+
 (* 3: the lookup oracle and the generator's bookkeeping disagree about the backend at this URL *)
 Definition judge_out (l : list orec) : list (N * N * N) :=
   flat_map (fun r => (if out_model_ok r then [] else [(r_id r, 5%N, 0%N)]) ++
                      (if P_out_one r then [] else [(r_id r, 6%N, 0%N)]) ++
                      (if opt_bytes_eqb (r_cur r) (r_lookup r) then [] else [(r_id r, 3%N, 0%N)])) l
   ++ dup_randoms [] l.
+
+(* all requests that arrived at the backends of one server (one world of the outgoing scenario), in
+   the order of arrival: every one judged on its own as above, and the freshness clause of P_out
+   over all of them; P_out l = false  <->  a verdict 6 or 7 (checked by the last component) *)
+Definition judge_out_world (l : list orec) : list (N * N * N) :=
+  let v := flat_map (fun r => (if out_model_ok r then [] else [(r_id r, 5%N, 0%N)]) ++
+                              (if P_out_one r then [] else [(r_id r, 6%N, 0%N)]) ++
+                              (if opt_bytes_eqb (r_cur r) (r_lookup r) then [] else [(r_id r, 3%N, 0%N)])) l
+           ++ dup_records [] l in
+  v ++ (if Bool.eqb (P_out l) (negb (existsb (fun t => N.eqb (snd (fst t)) 6 || N.eqb (snd (fst t)) 7) v))
+        then [] else [(match l with r :: _ => r_id r | [] => 0%N end, 6%N, 999999%N)]).
+
+(* what the client of the server saw of a call whose request met the fate f at the backend (hello, room
+   join: the client is answered or told about the error): as model/OutReq.v says - every fate but an
+   answer is an error for the caller.  ok = the client was answered as if the backend had answered. *)
+Definition fate_model_ok (f : fate) (ok : bool) : bool :=
+  match snd (deliver (SSent (EmptyString, EmptyString)) f) with
+  | OResponse => ok
+  | OError => negb ok
+  end.
+(* fates in cases files: 1 connection closed without a response byte, 2 closed in the middle of the
+   response, 3 answered 500, 4 no answer within the timeout of the call, else answered *)
+Definition fate_of (n : N) : fate :=
+  match n with 1%N => FClosed | 2%N => FCut | 3%N => FStatus500 | 4%N => FSilent | _ => FAnswered end.
+Definition judge_fates (l : list (N * fate * bool)) : list (N * N * N) :=
+  flat_map (fun t => if fate_model_ok (snd (fst t)) (snd t) then [] else [(fst (fst t), 5%N, 1%N)]) l.
